@@ -768,10 +768,10 @@ func (s *fstate) assign(lhs ast.Expr, rhs ast.Expr, rhsOrd Ord, tok token.Token,
 				}
 			}
 			s.setMapV(c, v, "map store at "+s.pos(n))
-			if s.inLoopUnord() && s.isOuterLoop(o) && v == rhsOrd && !s.mentionsLoopVar(lx.Index) && rhs != nil && !isFreshEmpty(rhs) && !isConst(s.info, rhs) && !s.keyDetermined(lx.Index, rhs) {
+			if s.inLoopUnord() && s.isOuterLoop(o) && v == rhsOrd && !s.mentionsLoopVar(lx.Index) && rhs != nil && !isFreshEmpty(rhs) && !s.freshLocal(n, rhs) && !isConst(s.info, rhs) && !s.keyDetermined(lx.Index, rhs) {
 				// (a value that is a function of the key it is stored under is the same whichever iteration stores it)
 				s.choiceAt(n, "keyed store "+core.Stable(s.info, lhs)+" not keyed by the loop variable (last-wins / first-wins)")
-			} else if !s.inLoopUnord() && g.funcCtx[s.d.fn] && s.isOuter(o) && rhs != nil && !isFreshEmpty(rhs) && !isConst(s.info, rhs) && !isSelfAppend(lhs, rhs) {
+			} else if !s.inLoopUnord() && g.funcCtx[s.d.fn] && s.isOuter(o) && rhs != nil && !isFreshEmpty(rhs) && !s.freshLocal(n, rhs) && !isConst(s.info, rhs) && !isSelfAppend(lhs, rhs) {
 				// the function runs once per element of an unordered sequence (e.g. per input document) and
 				// stores into state that outlives the call: which element wins for a key is order-dependent
 				// unless the stored value is determined by the key
@@ -930,6 +930,38 @@ func isFreshEmpty(e ast.Expr) bool {
 		}
 	}
 	return false
+}
+
+// freshLocal: the stored value is a local that the statement directly in front of the store (same block) set to a fresh
+// empty container: `v = make(...); m[k] = v` stores the same thing as `m[k] = make(...)`.
+func (s *fstate) freshLocal(store ast.Node, rhs ast.Expr) bool {
+	id, ok := ast.Unparen(rhs).(*ast.Ident)
+	if !ok || s.d == nil || s.d.fd == nil || s.d.fd.Body == nil {
+		return false
+	}
+	o := s.info.ObjectOf(id)
+	found := false
+	ast.Inspect(s.d.fd.Body, func(n ast.Node) bool {
+		var list []ast.Stmt
+		switch x := n.(type) {
+		case *ast.BlockStmt:
+			list = x.List
+		case *ast.CaseClause:
+			list = x.Body
+		}
+		for i, st := range list {
+			if ast.Node(st) != store || i == 0 {
+				continue
+			}
+			if as, isAs := list[i-1].(*ast.AssignStmt); isAs && len(as.Lhs) == 1 && len(as.Rhs) == 1 {
+				if lid, isID := as.Lhs[0].(*ast.Ident); isID && s.info.ObjectOf(lid) == o && isFreshEmpty(as.Rhs[0]) {
+					found = true
+				}
+			}
+		}
+		return !found
+	})
+	return found
 }
 
 func (s *fstate) indexIsPrivateKey(idx ast.Expr) bool {
@@ -1186,6 +1218,12 @@ func (s *fstate) closureVars(e ast.Expr, depth int, out map[types.Object]bool) {
 							s.closureVars(as.Rhs[i], depth+1, out)
 						} else if len(as.Rhs) == 1 {
 							s.closureVars(as.Rhs[0], depth+1, out)
+						}
+					}
+					// a struct local filled field by field (x := T{}; x.F = e) depends on what its fields are given
+					if se, isSe := ast.Unparen(l).(*ast.SelectorExpr); isSe && len(as.Rhs) == len(as.Lhs) {
+						if rid, isID := ast.Unparen(se.X).(*ast.Ident); isID && s.info.ObjectOf(rid) == o {
+							s.closureVars(as.Rhs[i], depth+1, out)
 						}
 					}
 				}
